@@ -817,7 +817,11 @@ class KconfigGrammar:
         # Every config/choice can have max. one prompt which is used to show to the user.
         # Optionally, it can be conditioned.
         # Explicit inline prompt parsing occurs because in some cases, inline prompt is not part of an option block.
-        inline_prompt = (QuotedString('"') | QuotedString("'")) + Opt(inline_condition)
+        # Backslash escapes (\" and \\) are resolved like in any other Kconfig string.
+        quoted_title = QuotedString('"', esc_char="\\", convert_whitespace_escapes=False) | QuotedString(
+            "'", esc_char="\\", convert_whitespace_escapes=False
+        )
+        inline_prompt = quoted_title + Opt(inline_condition)
 
         ###########################
         # Config
@@ -932,7 +936,7 @@ class KconfigGrammar:
 
         menu << (
             Keyword("menu")
-            - QuotedString('"')
+            - quoted_title
             + Opt(KconfigOptionBlock().leave_whitespace())
             + entries
             + Keyword("endmenu")
@@ -950,7 +954,7 @@ class KconfigGrammar:
         # Main menu
         ###########################
         mainmenu = (
-            (Keyword("mainmenu") - (QuotedString('"') | QuotedString("'")) + entries)
+            (Keyword("mainmenu") - quoted_title + entries)
             .set_parse_action(parser.parse_mainmenu)
             .set_name("mainmenu")
         )
